@@ -265,6 +265,9 @@ fn mean_abs_dev(s: &Ser, n: usize) -> Q {
 
 pub fn median(v: &[f64]) -> f64 {
 	let mut s = v.to_vec();
+	if s.iter().any(|x| x.is_nan()) {
+		return f64::NAN;
+	}
 	s.sort_by(|a, b| a.partial_cmp(b).unwrap());
 	let n = s.len();
 	if n % 2 == 1 {
@@ -666,7 +669,12 @@ pub struct Smm(pub Sel);
 impl Smm {
 	pub fn step(&mut self, x: Q) -> Q {
 		self.0.pushq(x);
-		Q::new(self.0.median(), self.0.rad())
+		let m = self.0.median();
+		let r = self.0.rad();
+		if !m.is_finite() || !r.is_finite() {
+			return Q::undefined();
+		}
+		Q::new(m, r)
 	}
 }
 refvv!(Smm);
